@@ -93,8 +93,13 @@ func invCases(r *hx.Rand, n int) {
 			y = r.Float()
 		}
 		var x float64
-		hx.Printf("case %d kind=inv %s y=%s tag=%s\n", id, params, fb(y), tag)
-		if guard("invcdf", func() { x = stats.InvCDF(d)(y) }) {
+		ok := guard("invcdf", func() { x = stats.InvCDF(d)(y) })
+		gx := fb(x)
+		if !ok {
+			gx = "crash"
+		}
+		hx.Printf("case %d kind=inv %s y=%s gx=%s tag=%s\n", id, params, fb(y), gx, tag)
+		if ok {
 			hx.Printf("obs %d x=%s\n", id, fb(x))
 			hx.Printf("sobs %d inverts=ok\n", id)
 		}
